@@ -236,9 +236,20 @@ func childMain(args []string) {
 		f.Write(append(b, '\n'))
 	}
 
+	// bringing the node up takes well under a second; if it does not finish, say so and leave
+	ready := make(chan struct{})
+	go func() {
+		select {
+		case <-ready:
+		case <-time.After(90 * time.Second):
+			fmt.Fprintf(os.Stderr, "HARNESS-BROKEN: node start-up did not finish within 90s\n%s\n", allStacks())
+			os.Exit(exitBroken)
+		}
+	}()
 	// the benign conversation expects a synchronised node (tx relay, compact blocks); a batch against a
 	// node in initial-block-download mode flips the flag after the self-test and back before the last one
 	h := newHarness(logPath, true)
+	close(ready)
 	code := exitOK
 	func() {
 		rep := h.selfTest("pre")
